@@ -8,7 +8,9 @@ Model of tonic's length-prefixed message framing (C01, C03, C06, C07):
 The message codec and the compressors are parameters (`Codec`); `&mut` buffers are returned
 values; `loop {}` is structural recursion over the list of environment events still to come
 (the end of the list is "Ready(None) from now on").
-The model follows the code *after* the `fix:` commits listed in known_findings.json.
+The model follows the code *after* the `fix:` commits listed in known_findings.json (the decoder
+before the last of them, which made `poll_frame` drop the DATA of non-200 responses, is kept in
+`Model/FramingAsFound.lean` for the C04 witnesses).
 -/
 namespace Framing
 
@@ -170,6 +172,18 @@ structure DecCfg where
 
 def DecCfg.limit (cfg : DecCfg) : Nat := cfg.maxSize.getD defaultMaxRecv
 
+/-- `Direction::Response(status)` with `status != 200`: the response is not a gRPC message stream
+(an HTML error page of a proxy, say).  `poll_frame` then drops the body's DATA unread, and the
+stream ends with the status inferred from the trailers / the HTTP status
+(fix "classify a non-200 response by its HTTP status instead of parsing its body as gRPC frames"). -/
+def DecCfg.skipsBody (cfg : DecCfg) : Bool :=
+  match cfg.dir with
+  | .response http => http != 200
+  | _ => false
+
+/-- what `poll_frame` puts into the buffer for a DATA frame `c` -/
+def DecCfg.accept (cfg : DecCfg) (c : Bytes) : Bytes := if cfg.skipsBody then [] else c
+
 inductive Phase
   | hdr
   | body (len : Nat) (comp : Option Enc)
@@ -304,7 +318,7 @@ def Dec.pollNext (cd : Codec α) (cfg : DecCfg) (s : DecSt) :
     | .need s' =>
       match ev with
       | .pending => (s', rest, .pending)
-      | .data c => Dec.pollNext cd cfg { s' with buf := s'.buf ++ c } rest
+      | .data c => Dec.pollNext cd cfg { s' with buf := s'.buf ++ cfg.accept c } rest
       | .trailers t => Dec.finish cfg { s' with trailers := mergeTr s'.trailers t } rest
       | .err st =>
         if cfg.dir = .request ∧ st.code = 1 then Dec.finish cfg s' rest
